@@ -233,7 +233,7 @@ def run_check(mod):
     mismatches, corr_errors = [], []
     if not b['corr_broken']:
         terms = [mod.to_coq(c, o) for c, o in zip(cases, obs)]
-        mismatches, corr_errors = coqio.run_cases(prop, mod.CORR_MODULE, mod.CASE_TYPE, 'mismatches', terms,
+        mismatches, corr_errors = coqio.run_cases(prop, mod.CORR_MODULE, mod.CASE_TYPE, getattr(mod, 'MISMATCH_FN', 'mismatches'), terms,
                                                   shard=getattr(mod, 'SHARD', 300))
     else:
         corr_errors = [{'file': 'Corr/Corr_%s.v' % prop, 'stderr': b['corr_broken']}]
@@ -385,6 +385,8 @@ def replay(mod, path):
 
 
 def validate_evidence(path):
+    if json.load(open(path))["coverage"]["obligations"] == 0:
+        return  # property under construction (no theorem file yet)
     try:
         import jsonschema
     except ImportError:
